@@ -25,7 +25,7 @@ fn gen_exchange(r: &mut Rng) -> Exchange {
     let body_method = r.chance(1, 2);
     let method = if body_method { *r.pick(&["POST", "PUT", "PATCH"]) } else { *r.pick(&["GET", "HEAD", "DELETE", "OPTIONS"]) };
     let version = if matches!(method, "GET" | "HEAD" | "POST") && r.chance(1, 4) { "HTTP/1.0" } else { "HTTP/1.1" };
-    let payload: Vec<u8> = (0..if body_method && !r.chance(1, 6) { r.range(0, 300) } else { 0 }).map(|i| (i * 7 % 251) as u8).collect();
+    let payload: Vec<u8> = (0..if body_method && !r.chance(1, 6) { if r.chance(1, 8) { r.range(4090, 4200) } else { r.range(0, 300) } } else { 0 }).map(|i| (i * 7 % 251) as u8).collect();
     let mut hs: Vec<(String, Vec<u8>)> = vec![("x-trace".into(), b"abc".to_vec())];
     let expect = body_method && r.chance(1, 2);
     if body_method && r.chance(1, 2) { hs.push(("content-length".into(), payload.len().to_string().into_bytes())); }
@@ -87,8 +87,13 @@ fn adjust(ex: &Exchange, p: usize) -> usize {
 /// run the exchange under one schedule drawn from `r`
 fn run_schedule(cx: &mut Ctx, ex: &Exchange, r: &mut Rng, mode: usize) {
     if cx.rec.new_flow(&ex.req) != "ok" { return; }
-    let cap_of = |r: &mut Rng| -> usize { match mode { 0 => 100000, 1 => 1 + r.below(8), 2 => *r.pick(&[5usize, 6, 7, 16, 30, 64]), 3 => r.range(1, 300), _ => *r.pick(&[1usize, 2, 3, 20, 100000]) } };
-    let step_of = |r: &mut Rng| -> usize { match mode { 0 => 100000, 1 => 1, 2 => 1 + r.below(4), 3 => r.range(1, 60), _ => *r.pick(&[1usize, 2, 7, 100000]) } };
+    // mode 5: buffers on the boundaries where the chunk-size line grows a digit, everything offered at once
+    // (the body is written into a buffer of ONE such size for the whole exchange: a size at which nothing fits
+    // must not exist)
+    let fixed_body_cap = *r.pick(&[20usize, 21, 22, 261, 262, 263, 4103, 4104]);
+    let cap_of = |r: &mut Rng| -> usize { match mode { 0 => 100000, 1 => 1 + r.below(8), 2 => *r.pick(&[5usize, 6, 7, 16, 30, 64]), 3 => r.range(1, 300), 5 => *r.pick(&[64usize, 300, 5000]), _ => *r.pick(&[1usize, 2, 3, 20, 100000]) } };
+    let big = ex.payload.len() > 1000;
+    let step_of = |r: &mut Rng| -> usize { match mode { 0 | 5 => 100000, 1 => if big { 37 } else { 1 }, 2 => if big { 50 } else { 1 + r.below(4) }, 3 => r.range(1, 60) * if big { 10 } else { 1 }, _ => *r.pick(&[1usize, 2, 7, 100000]) } };
     let query = |cx: &mut Ctx, r: &mut Rng| { if mode != 0 && r.chance(1, 4) { cx.op("canproceed"); } };
     let mut arrived = 0usize;
     let mut soff = 0usize;
@@ -127,7 +132,7 @@ fn run_schedule(cx: &mut Ctx, ex: &Exchange, r: &mut Rng, mode: usize) {
                 let chunked = cx.op("chunked?") == "bool true";
                 if boff < ex.payload.len() {
                     let upto = (boff + step_of(r).max(1)).min(ex.payload.len());
-                    let cap = if chunked { cap_of(r).max(6) } else { cap_of(r) };
+                    let cap = if mode == 5 { fixed_body_cap } else if chunked { cap_of(r).max(6) } else { cap_of(r) };
                     let res = cx.op(&format!("bwrite {} {}", hx(&ex.payload[boff..upto]), cap));
                     let p: Vec<&str> = res.split(' ').collect();
                     if p[0] == "bytes" { boff += p[1].parse::<usize>().unwrap_or(0); } else { return; }
@@ -185,7 +190,8 @@ fn run_call_schedule(cx: &mut Ctx, ex: &Exchange, r: &mut Rng, mode: usize) {
     let kind = if ex.body_method { "body" } else { "nobody" };
     if cx.rec.new_call(kind, &ex.req) != "ok" { return; }
     let cap_of = |r: &mut Rng| -> usize { match mode { 0 => 100000, 1 => 1 + r.below(8), 2 => *r.pick(&[5usize, 6, 7, 16, 30, 64]), 3 => r.range(1, 300), _ => *r.pick(&[1usize, 2, 3, 20, 100000]) } };
-    let step_of = |r: &mut Rng| -> usize { match mode { 0 => 100000, 1 => 1, 2 => 1 + r.below(4), 3 => r.range(1, 60), _ => *r.pick(&[1usize, 2, 7, 100000]) } };
+    let big = ex.payload.len() > 1000;
+    let step_of = |r: &mut Rng| -> usize { match mode { 0 => 100000, 1 => if big { 37 } else { 1 }, 2 => if big { 50 } else { 1 + r.below(4) }, 3 => r.range(1, 60) * if big { 10 } else { 1 }, _ => *r.pick(&[1usize, 2, 7, 100000]) } };
     // send
     let mut boff = 0usize;
     let mut guard = 0;
@@ -339,7 +345,7 @@ pub fn c01(cx: &mut Ctx) {
             cx.meta(&format!("group {}", g));
             cx.meta(&format!("msglen {}", ex.msglen));
             cx.meta(&format!("payload {}", hx(&ex.payload)));
-            run_schedule(cx, &ex, &mut r, s % 5);
+            run_schedule(cx, &ex, &mut r, s % 6);
         }
         // the single-call API: requests without Expect (Call has no Await100 state), all five schedule shapes
         if !ex.expect {
